@@ -2,7 +2,7 @@
 import re
 import z3
 from .. import run as R, models as M, mapmodels as MM, prov as P, clienttable as T, seqmodels as SQ
-from ..sym import Ctx, Executor, Node, Ptr, Opaque, OBJ, to_term, StrConst
+from ..sym import Ctx, Executor, Node, Ptr, Opaque, OBJ, to_term, StrConst, Fork
 
 VALIDATION = {}
 HF = r"^fn host_filter::<impl at server/src/middleware/http/host_filter\.rs:[\d: ]+>::"
@@ -285,13 +285,14 @@ def obligations(tier, seed):
         out.append(R.decide("kernel:from_http_request:agreement", "kernel", z3.Or(*viol), [z3.Or(*v) for v in reach_l], bodies=[b.name],
                             desc="Host header and URI authority both parse: admitted for matching iff they are equal (else no single authority -> 400); neither parses: none; "
                                  "the result is always one of the parsed authorities (mixed cells - one parses, one does not - are not asserted)",
-                            bounds="presence and parse outcome of both sources and their equality: all combinations", keydetail="authority-agreement"))
+                            bounds="presence and parse outcome of both sources and their equality: all combinations", keydetail="authority-agreement",
+                            replay=dict(scenario="c14_authority_sources", vars={}, fixed={}, region=z3.BoolVal(True))))
         srcs = set(parsed)          # every text the authority parser was invoked on, on any path
         ok_src = srcs == {"host_header_text", "uri_authority"}
         out.append(R.decide("prov:from_http_request:texts-untouched", "provenance", z3.BoolVal(not ok_src), [z3.Or(*reach["any"])], bodies=[b.name],
                             desc="the texts handed to the authority parser are the Host header value and the URI authority themselves (no case folding or other rewriting on the "
                                  "request side that the allow-list side does not get)", bounds="all paths", keydetail="authority-text-rewritten",
-                            extra={"parser_inputs": sorted(srcs)}, replay=dict(scenario="c14_single_entry", vars={}, fixed={}, region=z3.BoolVal(True))))
+                            extra={"parser_inputs": sorted(srcs)}, replay=dict(scenario="c14_authority_sources", vars={}, fixed={}, region=z3.BoolVal(True))))
 
     # ---- 5. the gate: inner service only behind a recognised authority --------------------------------------------------------
     b = R.find_body(srv, HF + r"call\(_1: &mut HostFilter<S>, _2: hyper::Request<B>\)")
@@ -332,5 +333,86 @@ def obligations(tier, seed):
         out.append(R.decide("order:HostFilter::call:gate", "order", z3.Or(*viol) if viol else z3.BoolVal(False), [z3.Or(*reach_in), z3.Or(*reach_400), z3.Or(*reach_403)], bodies=[b.name],
                             desc="the inner service is called only after an authority was determined and the filter (if enabled) recognised it; otherwise the request ends in the filter (400 / 403)",
                             bounds="all paths of HostFilter::call", keydetail="gate",
-                            extra={"models": ["Option::is_none_or(filter, closure): true without a filter, else the inlined closure, whose WhitelistedHosts::recognize call has a symbolic result", "from_http_request: recorded call with symbolic Option"]}))
+                            extra={"models": ["Option::is_none_or(filter, closure): true without a filter, else the inlined closure, whose WhitelistedHosts::recognize call has a symbolic result", "from_http_request: recorded call with symbolic Option"]},
+                            replay=dict(scenario="c14_authority_sources", vars={}, fixed={}, region=z3.BoolVal(True))))
+    out += _layer_enabled(srv)
     return out
+
+
+def _layer_enabled(srv):
+    """HostFilterLayer::new(list) enables filtering for every list - also an empty one (which then admits nothing): the layer it returns holds a filter built from exactly
+    that list; only disable() builds a layer without one; layer() hands the layer's own filter to the service"""
+    res = []
+    S_ = r"^fn host_filter::<impl at server/src/middleware/http/host_filter\.rs:[\d: ]+>::"
+    b_new = R.find_body(srv, S_ + r"new\(_1: T\) -> Result<HostFilterLayer, AuthorityError>")
+    b_dis = R.find_body(srv, S_ + r"disable\(\) -> HostFilterLayer")
+    b_lay = R.find_body(srv, S_ + r"layer\(_1: &HostFilterLayer, _2: S\) -> HostFilter<S>")
+    parsed_ok = z3.Bool("allow_list.parses")
+
+    def m_collect(ex, st, callee, args, dty, site):
+        return Fork([(parsed_ok, lambda ex_, st_, tr: ex_.mk_variant("Result", 0, "Ok", Opaque(z3.Const("the_parsed_allow_list", OBJ)))),
+                     (z3.Not(parsed_ok), lambda ex_, st_, tr: ex_.mk_variant("Result", 1, "Err", Opaque(z3.Const("authority_error", OBJ))))])
+    models = [(r"as Iterator>::collect::<Result<Vec<", m_collect),
+              (r"^<WhitelistedHosts as From<.*>>::from$", lambda ex, st, c, a, d, s_: Opaque(z3.Const("hosts_from:" + str(to_term(a[0])), OBJ)))] + list(SQ.TRY_MODELS) + MM.ARC_MODELS
+    viol, reach, bad = [], {"enabled": [], "bad-list": [], "disabled": [], "layer": []}, []
+    ctx = _ctx(srv)
+    ctx.models = [(re.compile(rx), f) for rx, f in models] + ctx.models
+    ctx.inline = []
+    ex = Executor(ctx)
+    for p in ex.run(b_new):
+        if p.kind != "return":
+            bad.append((p.kind, p.detail))
+            continue
+        d = z3.simplify(ex.discr_of(p.ret))
+        pc = p.cond()
+        if not z3.is_bv_value(d):
+            bad.append(("unsupported", "result discriminant"))
+            continue
+        if d.as_long() == 1:
+            reach["bad-list"].append(z3.And(pc, z3.Not(parsed_ok)))
+            viol.append(z3.And(pc, parsed_ok))
+            continue
+        reach["enabled"].append(z3.And(pc, parsed_ok))
+        lay = ex.read_node(p.ret.kids[("Ok", 0)])
+        opt = ex.read_node(lay.kids[0]) if isinstance(lay, Node) and 0 in lay.kids else None
+        od = z3.simplify(ex.discr_of(opt)) if isinstance(opt, Node) else None
+        good = od is not None and z3.is_bv_value(od) and od.as_long() == 1 and "hosts_from:the_parsed_allow_list" in _deep(ex, opt)
+        viol.append(z3.Or(z3.And(pc, z3.Not(parsed_ok)), z3.And(pc, z3.BoolVal(not good))))
+    for p in ex.run(b_dis):
+        if p.kind != "return":
+            bad.append((p.kind, p.detail))
+            continue
+        reach["disabled"].append(p.cond())
+        opt = ex.read_node(p.ret.kids[0]) if isinstance(p.ret, Node) and 0 in p.ret.kids else None
+        od = z3.simplify(ex.discr_of(opt)) if isinstance(opt, Node) else None
+        if not (od is not None and z3.is_bv_value(od) and od.as_long() == 0):
+            viol.append(p.cond())
+    fi_f = R.field_index("HostFilter", "filter")
+    for p in ex.run(b_lay):
+        if p.kind != "return":
+            bad.append((p.kind, p.detail))
+            continue
+        reach["layer"].append(p.cond())
+        f = p.ret.kids.get(fi_f) if isinstance(p.ret, Node) else None
+        if f is None or "arg1.*.0" not in _deep(ex, f):
+            viol.append(p.cond())
+    reach_l = R.live_reach(viol, reach, bad)
+    if bad or not all(reach_l):
+        return [R.Result(engine="mirsym", name="kernel:HostFilterLayer::new:enabled", kind="kernel", status="unsupported" if bad else "vacuous",
+                         detail=str(bad[:1] or {k: len(v) for k, v in reach.items()})[:300], bodies=[b_new.name, b_dis.name, b_lay.name])]
+    return [R.decide("kernel:HostFilterLayer::new:enabled", "kernel", z3.Or(*viol) if viol else z3.BoolVal(False), [z3.Or(*v) for v in reach_l], bodies=[b_new.name, b_dis.name, b_lay.name],
+                     desc="HostFilterLayer::new(list) returns a layer with a filter built from exactly that list whenever the list parses - for an empty list too (it then admits nothing) - "
+                          "and an error otherwise; only disable() builds a layer without a filter; layer() gives the service the layer's own filter",
+                     bounds="every path of new / disable / layer; the list parses or not", keydetail="layer-enabled",
+                     replay=dict(scenario="c14_authority_sources", vars={}, fixed={}, region=z3.BoolVal(True)))]
+
+
+def _deep(ex, v, depth=0):
+    v = ex.read_node(v) if isinstance(v, Node) else v
+    if isinstance(v, Ptr):
+        return "ptr(" + _deep(ex, v.node, depth + 1) + ")"
+    if isinstance(v, Node):
+        if not v.kids:
+            return v.name
+        return v.name + "{" + ",".join(_deep(ex, k, depth + 1) for kk, k in v.kids.items() if depth < 8 and not (isinstance(kk, tuple) and kk[0] == "name")) + "}"
+    return re.sub(r"\s+", " ", str(to_term(v)))
